@@ -46,8 +46,19 @@ def check(run):
     fires = calls(cn, 'high_resolution_timer::fire')
     run.check(bool(trues) and all(q.must_follow(cn, t, removes) for t in trues) and all(q.any_precedes(cn, trues, r) for r in removes), 'R4', 'expired-implies-dequeued',
               T + '::cancel', cn.loc(), 'cancel() does not pair m_expired=true with remove_timer(this) on every path', 'm_expired=true is paired with remove_timer(this)')
+    fr_ = fx.fn1(T + '::fire')
+
+    def fire_counts():
+        """fire() itself returns 1 exactly on the path that posts and 0 elsewhere"""
+        posts = [f.site for f in handlers.flows_in(fx, fr_) if f.dest == 'post']
+        rets = [r for r in q.returns(fr_) if r.get('e') is not None]
+        return bool(rets) and bool(posts) and all((q.int_value(r['e']) == 1 and q.any_precedes(fr_, posts, r)) or (q.int_value(r['e']) == 0 and not q.any_precedes(fr_, posts, r)) for r in rets)
     for r in q.returns(cn):
         v = q.int_value(r.get('e'))
+        e0 = q.strip_casts(r.get('e'))
+        if v is None and is_node(e0) and e0['k'] == 'call' and any(e0 is f for f in fires):
+            run.check(fire_counts(), 'R4', 'cancel-return', T + '::cancel:return fire()', cn.loc(r), 'cancel() returns fire()\'s result, which is not 1 exactly on the path that posts the abort', 'returns fire()\'s count: 1 exactly when the abort was posted')
+            continue
         after_fire = q.any_precedes(cn, fires, r)
         if v == 1:
             run.check(after_fire, 'R4', 'cancel-return', T + '::cancel:return 1@%s' % ('after-fire' if after_fire else 'no-fire'), cn.loc(r), 'returns 1 on a path that does not post the abort', 'returns 1 after fire(operation_aborted)')
@@ -62,7 +73,10 @@ def check(run):
         g = q.guards_at(cn, f)
         pend = any(handlers_is_slot_test(cn, at) and pol for at, pol in g) or any(handlers_is_slot_test(cn, at) and not pol for at, pol in g) is False and False
         gtxt = [('' if p else '!') + q.render(cn, at) for at, p in g]
-        run.check('!m_expired' in gtxt and 'm_handler' in gtxt, 'R4', 'cancel-guards', T + '::cancel', cn.loc(f), 'abort is not guarded by (!m_expired && m_handler): ' + str(gtxt), 'abort guarded by !m_expired && m_handler')
+        # the pending-handler test may sit in cancel() or at the top of fire() itself (every post in fire() is guarded by it)
+        posts_ = [fl.site for fl in handlers.flows_in(fx, fr_) if fl.dest == 'post']
+        in_fire = bool(posts_) and all(any(handlers_is_slot_test(fr_, at) and pol for at, pol in q.guards_at(fr_, s_)) for s_ in posts_)
+        run.check('!m_expired' in gtxt and ('m_handler' in gtxt or in_fire), 'R4', 'cancel-guards', T + '::cancel', cn.loc(f), 'abort is not guarded by (!m_expired && m_handler): ' + str(gtxt), 'abort guarded by !m_expired && m_handler')
     if not fires:
         run.violation('R4', 'cancel-aborts', T + '::cancel', cn.loc(), 'cancel() never fires the pending handler with operation_aborted')
 
@@ -80,10 +94,7 @@ def check(run):
               'fire() can return without setting m_expired=true: the timer is out of the queue but still looks pending (a later wait never completes)',
               'm_expired=true on every path through fire()')
     flows = handlers.flows_in(fx, fr)
-    posted = [f for f in flows if f.dest == 'post']
-    inv = [f for f in flows if f.kind == 'invoke' or f.dest == 'dispatch']
-    run.check(bool(posted) and not inv, 'R6', 'own-post', T + '::fire', fr.loc(), 'fire() %s' % ('invokes or dispatches the handler inline' if inv else 'does not post the handler'),
-              'handler is moved into a closure handed to post()')
+    fire_posts_rule(run)
     run.check(not [f for f in flows if f.borrowed], 'R6', 'not-borrowed', T + '::fire', fr.loc(), 'the posted completion borrows m_handler (std::ref/&) instead of owning it', 'completion owns the handler')
     sf = handlers.SlotFlow(fx, T + '::m_handler', {T})
     run.check(sf.exit_state(fr) == handlers.EMPTY, 'R6', 'slot-cleared', T + '::fire', fr.loc(), 'm_handler may still be set when fire() returns (a second fire would run it again)', 'm_handler is empty on every exit of fire()')
@@ -171,6 +182,22 @@ def sortedness_rules(run):
         ok, n = q.each_preceded(fn, ev_false, ev_add)
         run.check(n > 0 and ok, 'R4', 'queued-implies-unexpired', T + '::' + name, fn.loc(),
                   'add_timer(this) without a preceding m_expired=false', 'add_timer(this) is preceded by m_expired=false')
+        # the stored key is the requested expiry itself (expires_at: the parameter; expires_after: now() + the parameter)
+        _sites = {}
+
+        def is_key_write(g, n):
+            if g.usr not in _sites:
+                _sites[g.usr] = [a.site for a in q.field_accesses(g, {T + '::m_expiration_time'}) if a.kind == 'assign' and q.is_this(q.access_root(a.node))]
+            return any(n is s for s in _sites[g.usr])
+        pname = fn.params[0]['name'] if fn.params else None
+        for x in q.flat_nodes(fn, is_key_write):
+            s = x.call
+            rhs = s['args'][1] if s['k'] == 'call' else s.get('rhs')
+            txt = q.render(x.owner, q.strip_casts(rhs), names=x.names)
+            want = (pname,) if name == 'expires_at' else ('(sim::chrono::high_resolution_clock::now() + %s)' % pname, '(%s + sim::chrono::high_resolution_clock::now())' % pname)
+            run.check(txt in want, 'R4', 'key-is-requested-expiry', T + '::' + name, x.owner.loc(s),
+                      'the expiry stored by %s is %s, not the requested %s: timers then fire at (and are ordered by) a different instant than the one asked for - e.g. clamping overdue deadlines to now() makes them fire in arming order instead of deadline order' % (name, txt, want[0]),
+                      'stores exactly the requested expiry')
         # return value is cancel()'s count
         rets = q.returns(fn)
         okret = bool(rets)
@@ -221,6 +248,19 @@ def sortedness_rules(run):
     pb = [c for c in at.calls() if (c.get('callee') or '').split('::')[-1] in ('push_back', 'emplace_back', 'push_front') and q.render(at, c.get('obj')) == 'm_timer_queue']
     run.check(not pb, 'R4', 'sorted-insert-only', S + '::add_timer', at.loc(), 'the timer queue is appended to without sorting', 'only the sorted insert mutates the queue')
 
+
+
+def fire_posts_rule(run):
+    """Timer completions are handed to post(), never invoked or dispatched inline (shared with C02: posted handlers run
+    FIFO at the time they were posted; a completion dispatched from inside a handler would jump the queue)."""
+    fx = run.fx
+    fr = fx.fn1(T + '::fire')
+    run.touch(fr)
+    flows = handlers.flows_in(fx, fr)
+    posted = [f for f in flows if f.dest == 'post']
+    inv = [f for f in flows if f.kind == 'invoke' or f.dest == 'dispatch']
+    run.check(bool(posted) and not inv, 'R6', 'own-post', T + '::fire', fr.loc(), 'fire() %s' % ('invokes or dispatches the handler inline: called from inside a handler (cancel, re-arm, wait on an expired timer) the completion runs nested and ahead of work posted earlier' if inv else 'does not post the handler'),
+              'handler is moved into a closure handed to post()')
 
 
 def handlers_is_slot_test(fn, atom):
